@@ -1,6 +1,7 @@
 import Dcg.Driver.Proto
 import Dcg.Py.Import
 import Dcg.Model.Modules
+import Dcg.Model.Resolver
 namespace Dcg.Driver.Modules
 open Dcg.Driver Dcg.Py.Import Dcg.Model.Modules
 
@@ -31,6 +32,14 @@ def encRel : Option RelImport → String
       " " ++ (if r.isModule then "1" else "0")
 
 def b (x : Bool) : String := if x then "1" else "0"
+
+def pairs? (x : SX) : Option (List (List Char × List Char)) :=
+  match SX.paths? x with
+  | some ps => ps.mapM (fun p => match p with | [a, c] => some (a, c) | _ => none)
+  | none => none
+
+/-- `get_valid_field_name(·, model_type=CLASS)` on the ASCII region (model of property C06/C07) -/
+def vnClass (x : List Char) : Option (List Char) := Dcg.Model.Resolver.validName? false x
 
 def handlers : List (String × Handler) := [
   ("py.resolve", fun
@@ -96,6 +105,16 @@ def handlers : List (String × Handler) := [
       | some mods => "ok" ++ String.join ((assign [] (procOrder mods)).map (fun a =>
           " " ++ encodeStr (joinDot a.mod) ++ ":" ++ b a.init ++ ":" ++ b a.hasModels ++ ":" ++ encodeStr (keyPath a.key)))
       | none => "err args"
+    | _ => "err args"),
+  ("mod.aliases", fun
+    | [excl, classes, reqs] => match excl.strs?, pairs? classes, pairs? reqs with
+      | some excl, some classes, some reqs =>
+        if (classes ++ reqs).all (fun p => (vnClass p.2).isSome) then
+          match importNames (fun x => (vnClass x).getD x) excl classes reqs with
+          | some names => "ok" ++ String.join (names.map (fun x => " " ++ encodeStr x))
+          | none => "diverges"
+        else "unmodelled"
+      | _, _, _ => "err args"
     | _ => "err args"),
   ("mod.checks", fun
     | [t, mods] => match t.bool?, SX.paths? mods with
